@@ -544,6 +544,7 @@ func runItems(n int, build func(gb *globalsBuilder, i int) string) (res []object
 var jsonD0 = func() []val {
 	out := []val{vnil, vB(true), vB(false)}
 	out = append(out, poolI...)
+	out = append(out, vi(1<<53+1)) // first int that float64 cannot hold
 	out = append(out, poolF...)
 	out = append(out, poolSJ...)
 	return out
@@ -721,6 +722,19 @@ func partC(r *ev.Run, stride int) {
 		atomic.AddInt64(&nRT, int64(cnt))
 	})
 	r.Set("json_values_depth_le1", len(jsonU))
+	// informational: ints that come back as a float which is risor-equal to the original but is not the same integer
+	var inexact []string
+	for _, x := range jsonD0 {
+		if x.K != 'i' {
+			continue
+		}
+		enc := builtins.Encode(bg, x.obj(), object.NewString("json"))
+		dec := builtins.Decode(bg, enc, object.NewString("json"))
+		if f, ok := dec.(*object.Float); ok && (f.Value() >= 9.3e18 || f.Value() <= -9.3e18 || int64(f.Value()) != x.I) {
+			inexact = append(inexact, fmt.Sprintf("%d -> %s (risor == original: %v)", x.I, strconv.FormatFloat(f.Value(), 'g', -1, 64), eitherEqual(dec, x.obj())))
+		}
+	}
+	r.Set("json_ints_not_restored_exactly_but_equal_by_risor", inexact)
 	sx := vm("a", vl(vi(math.MaxInt64), vf(0.5)), "é", vs("é<"))
 	r.Sample(map[string]any{"part": "C1", "codec": "json", "value": sx.tok(), "encoded": observeObject("json", sx).enc, "decoded_equals_original": observeObject("json", sx).eq})
 
